@@ -8,6 +8,10 @@
 (*                                                                         *)
 (*   K    [t, k, n, d, im]  number n/d + im*j of Python type k             *)
 (*                          (int bool flt frac cplx npint npflt)           *)
+(*        [.., k = "nan", id]  a float NaN: a value that is NOT == itself. *)
+(*                          id names the float OBJECT (Python's containers *)
+(*                          compare elements with "is" first, so identity  *)
+(*                          of such a value is observable)                 *)
 (*   S    [t, s, hc]        str; hc = 1: a str subclass whose __hash__ is  *)
 (*                          constant (a legal, colliding hash)             *)
 (*   None [t]               Ty [t, s]   a type object (float, ...)         *)
@@ -24,6 +28,8 @@ KI(n)         == KV("int", n, 1)
 KF(n, d)      == KV("flt", n, d)
 KB(b)         == KV("bool", IF b THEN 1 ELSE 0, 1)
 KC(n, im)     == [t |-> "K", k |-> "cplx", n |-> n, d |-> 1, im |-> im]
+KN(id)        == [t |-> "K", k |-> "nan", n |-> 0, d |-> 1, im |-> 0, id |-> id]
+IsNaN(v)      == v.t = "K" /\ v.k = "nan"
 Str(s)        == [t |-> "S", s |-> s, hc |-> 0]
 CStr(s)       == [t |-> "S", s |-> s, hc |-> 1]
 NoneV         == [t |-> "None"]
@@ -134,10 +140,10 @@ FieldIndex(cls, fname) == CHOOSE i \in 1..Len(FieldsOf(cls)) : FieldsOf(cls)[i] 
 (***************************************************************************)
 RECURSIVE PyEq(_, _), Decidable(_), Hashable(_)
 
-\* values whose == the model can decide (float NaN constants are not: nan != nan but
-\* (nan,) == (nan,) by identity)
+\* values the model can speak about (a float NaN comes with the identity of the float
+\* object: nan != nan but (nan,) == (nan,) for one and the same object; see Eq3 below)
 Decidable(v) ==
-    CASE v.t = "K" -> v.k # "nan" /\ v.d > 0
+    CASE v.t = "K" -> v.d > 0
       [] v.t = "T" -> \A i \in 1..Len(v.c) : Decidable(v.c[i])
       [] v.t = "M" -> \A i \in 1..Len(v.kv) : Decidable(v.kv[i].v)
       [] v.t = "N" -> \A i \in 1..Len(v.f) : Decidable(v.f[i])
@@ -146,7 +152,7 @@ Decidable(v) ==
 
 PyEq(a, b) ==
     IF a.t # b.t THEN FALSE
-    ELSE CASE a.t = "K"    -> a.n * b.d = b.n * a.d /\ a.im = b.im
+    ELSE CASE a.t = "K"    -> a.k # "nan" /\ b.k # "nan" /\ a.n * b.d = b.n * a.d /\ a.im = b.im
            [] a.t = "S"    -> a.s = b.s
            [] a.t = "None" -> TRUE
            [] a.t = "Ty"   -> a.s = b.s
@@ -161,6 +167,64 @@ PyEq(a, b) ==
                               /\ \A i \in 1..Len(a.f) : PyEq(a.f[i], b.f[i])
            \* "Missing" (a deleted attribute, only after an Immutable violation)
            [] OTHER        -> FALSE
+
+(***************************************************************************)
+(* Round 3: values that are not equal to themselves (float NaN).           *)
+(* PyEq above is strict, structural == (NaN-free trees: the whole truth).  *)
+(* With a NaN in a tree the meaning of "pairwise-equal fields" depends on  *)
+(* object identity, and part of it is not fixed by the statement, so the   *)
+(* meaning is three-valued: "T" must compare equal, "F" must compare       *)
+(* unequal, "U" either answer is allowed.                                  *)
+(*   - an object is equal to ITSELF whatever its fields hold (reflexivity; *)
+(*     decided by the callers below through the object index, not here)    *)
+(*   - a NaN is never == anything; inside a tuple / mapping Python tries   *)
+(*     "is" first: the same float object there is equal ("T")              *)
+(*   - the same NaN object directly in a field of two DIFFERENT nodes:     *)
+(*     field == field says unequal, field-tuple == field-tuple (what the   *)
+(*     init-args protocol compares) says equal: "U"                        *)
+(*   - nested nodes with identical trees that are not structurally equal   *)
+(*     (only possible with a NaN inside): they may be one and the same     *)
+(*     object (a shallow copy shares its children) and then are equal by   *)
+(*     reflexivity, or two objects: "U"                                    *)
+(***************************************************************************)
+RECURSIVE HasNaN(_)
+HasNaN(v) ==
+    CASE v.t = "K" -> v.k = "nan"
+      [] v.t = "T" -> \E i \in 1..Len(v.c) : HasNaN(v.c[i])
+      [] v.t = "M" -> \E i \in 1..Len(v.kv) : HasNaN(v.kv[i].v)
+      [] v.t = "N" -> \E i \in 1..Len(v.f) : HasNaN(v.f[i])
+      [] OTHER -> FALSE
+
+And3(R) == IF "F" \in R THEN "F" ELSE IF "U" \in R THEN "U" ELSE "T"
+B3(b)   == IF b THEN "T" ELSE "F"
+
+\* elt: the two values are compared as elements of a container (identity first)
+RECURSIVE Eq3V(_, _, _)
+Eq3V(a, b, elt) ==
+    IF a.t # b.t THEN "F"
+    ELSE CASE a.t = "K" ->
+                IF a.k = "nan" \/ b.k = "nan"
+                THEN IF a.k = "nan" /\ b.k = "nan" /\ a.id = b.id
+                     THEN (IF elt THEN "T" ELSE "U") ELSE "F"
+                ELSE B3(a.n * b.d = b.n * a.d /\ a.im = b.im)
+           [] a.t = "T" -> IF Len(a.c) # Len(b.c) THEN "F"
+                           ELSE And3({ Eq3V(a.c[i], b.c[i], TRUE) : i \in 1..Len(a.c) })
+           [] a.t = "M" -> IF Len(a.kv) # Len(b.kv) THEN "F"
+                           ELSE And3({ LET js == { j \in 1..Len(b.kv) : a.kv[i].k = b.kv[j].k } IN
+                                       IF js = {} THEN "F"
+                                       ELSE Eq3V(a.kv[i].v, b.kv[CHOOSE j \in js : TRUE].v, TRUE)
+                                     : i \in 1..Len(a.kv) })
+           [] a.t = "N" -> LET s == IF a.cls # b.cls \/ Len(a.f) # Len(b.f) THEN "F"
+                                    ELSE And3({ Eq3V(a.f[i], b.f[i], FALSE) : i \in 1..Len(a.f) })
+                           IN IF s = "T" THEN "T" ELSE IF a = b THEN "U" ELSE s
+           [] OTHER -> B3(PyEq(a, b))
+
+\* two DIFFERENT expression objects with trees a and b: same class and pairwise-equal fields
+EqTop(a, b) ==
+    IF ~HasNaN(a) /\ ~HasNaN(b) THEN B3(PyEq(a, b))
+    ELSE IF a.t # "N" \/ b.t # "N" THEN "F"
+    ELSE IF a.cls # b.cls \/ Len(a.f) # Len(b.f) THEN "F"
+    ELSE And3({ Eq3V(a.f[i], b.f[i], FALSE) : i \in 1..Len(a.f) })
 
 \* hash(v) does not raise
 Hashable(v) ==
@@ -179,7 +243,9 @@ Abs(x) == IF x < 0 THEN -x ELSE x
 
 RECURSIVE Canon(_)
 Canon(v) ==
-    CASE v.t = "K" -> LET g == Gcd(Abs(v.n), v.d) IN
+    CASE v.t = "K" -> IF v.k = "nan" THEN [t |-> "KN", id |-> v.id]   \* hash(nan) goes by object identity
+                      ELSE
+                      LET g == Gcd(Abs(v.n), v.d) IN
                       [t |-> "K", n |-> v.n \div g, d |-> v.d \div g, im |-> v.im]
       [] v.t = "S" -> [t |-> "S", s |-> v.s]
       [] v.t = "T" -> [t |-> "T", c |-> [i \in 1..Len(v.c) |-> Canon(v.c[i])]]
